@@ -116,21 +116,49 @@ type resetObs struct {
 }
 
 func postRun(res *vf.Result, mf MainFinal, scratch string, cp caps, resets []resetObs, interrupted, root string) {
-	// Witness class "snapshot ahead of level 0 at reset": when ResetLocalState
-	// returned, the replica held a file at level >= 1 whose MaxTXID exceeded
-	// its highest level-0 TXID (a snapshot published at position n before
-	// L0/n was uploaded); the reset drops the local L0/n and TXID n is issued
-	// again with other content. Any other reset keeps the generic key.
+	// Witness class "snapshot ahead of level 0 at reset" (listed finding): a
+	// snapshot published at position n before L0/n was uploaded, combined with
+	// a ResetLocalState that drops the local L0/n, so that TXID n is issued
+	// again with other content. The class applies when, for this database, a
+	// ResetLocalState returned nil during the run AND
+	//   (a) at the instant it returned the replica held a file at level >= 1
+	//       whose MaxTXID exceeded its highest level-0 TXID, or
+	//   (b) some level >= 1 file was published on the replica before the
+	//       level-0 file of its top TXID (archive publication order; this also
+	//       covers a Snapshot call that was in flight across the reset).
+	// It takes precedence over ":after-interrupted-checkpoint". Any other reset
+	// keeps the generic key.
 	sfx, note := "", ""
-	for _, r := range resets {
-		if r.HiMax > r.L0Max {
-			sfx = ":snapshot-ahead-of-l0-at-reset"
-			note = fmt.Sprintf(" [when ResetLocalState returned at t=%.1fs the replica held a level>=1 file up to TXID %d but level 0 only up to %d]", r.At, r.HiMax, r.L0Max)
-			break
+	if len(resets) > 0 {
+		for _, r := range resets {
+			if r.HiMax > r.L0Max {
+				sfx = ":snapshot-ahead-of-l0-at-reset"
+				note = fmt.Sprintf(" [when ResetLocalState returned at t=%.1fs the replica held a level>=1 file up to TXID %d but level 0 only up to %d]", r.At, r.HiMax, r.L0Max)
+				break
+			}
 		}
-	}
-	if sfx == "" && len(resets) > 0 {
-		note = fmt.Sprintf(" [ResetLocalState returned nil on this database at t=%.1fs (replica level 0 up to %d, higher levels up to %d)]", resets[0].At, resets[0].L0Max, resets[0].HiMax)
+		first := map[int]int{}
+		al := listArchive(mf.Arch)
+		for _, a := range al {
+			if a.Level == 0 {
+				if s0, ok := first[a.Max]; !ok || a.Seq < s0 {
+					first[a.Max] = a.Seq
+				}
+			}
+		}
+		for _, a := range al {
+			if a.Level == 0 {
+				continue
+			}
+			if s0, ok := first[a.Max]; !ok || s0 > a.Seq {
+				sfx = ":snapshot-ahead-of-l0-at-reset"
+				note += fmt.Sprintf(" [L%d/%d-%d was published on the replica before L0/%d (publication order); %d ResetLocalState call(s) returned nil in this run, first at t=%.1fs]", a.Level, a.Min, a.Max, a.Max, len(resets), resets[0].At)
+				break
+			}
+		}
+		if sfx == "" {
+			note = fmt.Sprintf(" [ResetLocalState returned nil on this database at t=%.1fs (replica level 0 up to %d, higher levels up to %d)]", resets[0].At, resets[0].L0Max, resets[0].HiMax)
+		}
 	}
 	if sfx == "" && interrupted != "" {
 		sfx = ":after-interrupted-checkpoint"
@@ -415,7 +443,6 @@ func imageOf(lf *oracle.LTXFile) []byte {
 	}
 	return img
 }
-
 
 // errClass maps a restore error to a short class for the evidence counters.
 func errClass(err error) string {
